@@ -6,6 +6,7 @@ use std::time::Duration;
 mod common;
 mod engines;
 mod stack;
+mod c01;
 mod c03;
 mod c04;
 mod c05;
@@ -35,6 +36,9 @@ fn main() {
   let args: Vec<String> = std::env::args().collect();
   if args.len() < 3 {
     usage();
+  }
+  if std::env::var_os("MC_TRACE").is_some() {
+    let _ = tracing_subscriber::fmt().with_env_filter(tracing_subscriber::EnvFilter::from_env("MC_TRACE")).with_writer(std::io::stderr).without_time().try_init();
   }
   rzmq::verif::sched::install(&HOOKS);
   // let shuttle install its (chaining, noisy) panic hook once, then replace it with the quiet one
@@ -66,6 +70,7 @@ fn main() {
       let total = tier.pick(Duration::from_secs(600), Duration::from_secs(4 * 3600));
       mc_core::world::start_watchdog(total, format!("{} {}", prop, tier.name()));
       let report: Report = match prop.as_str() {
+        "C01" => c01::run(tier),
         "C03" => c03::run(tier),
         "C04" => c04::run(tier),
         "C05" => c05::run(tier),
@@ -95,6 +100,7 @@ fn main() {
       let prop = v["property"].as_str().unwrap_or("").to_string();
       let sub = v["sub"].as_str().unwrap_or("").to_string();
       let res = match prop.as_str() {
+        "C01" => c01::replay(&sub, &v["witness"]),
         "C03" => c03::replay(&sub, &v["witness"]),
         "C04" => c04::replay(&sub, &v["witness"]),
         "C05" => c05::replay(&sub, &v["witness"]),
